@@ -209,13 +209,70 @@ pub fn run_with(out: &mut Out, rng: &mut Rng, thorough: bool, oracle: Oracle) {
             }
         }
     }
+    // the three bits after the DF field (FS in DF4/5/20/21, CA in DF11/17, CF in DF18, VS+CC in DF0/16), every
+    // value in every format that has them: what is rendered and serialised depends on them
+    for df in [0u8, 4, 5, 11, 16, 17, 18, 19, 20, 21, 24] {
+        for v in 0..8u64 {
+            for _ in 0..(2 * k) {
+                let mut f = frame(rng, df, None);
+                put_bits(&mut f, 5, 3, v);
+                if df == 17 || df == 18 {
+                    set_parity(&mut f, 0);
+                }
+                dec(out, &f);
+            }
+        }
+    }
     // structured payloads from the per-register generators
-    for me in crate::gen_adsb::payloads(rng, thorough) {
+    let mes = crate::gen_adsb::payloads(rng, thorough);
+    for me in &mes {
         for df in [17u8, 18] {
             let mut f = frame(rng, df, None);
-            f[4..11].copy_from_slice(&me);
+            f[4..11].copy_from_slice(me);
             set_parity(&mut f, 0);
             dec(out, &f);
+        }
+    }
+    // Comm-B replies whose MB field is an ADS-B ME payload.  BDS 6,5 (type code 31, subtype 0 or 1) is a
+    // hypothesis of both selectors: the structured BDS 6,5 payloads above, in DF20 and DF21.
+    let me65: Vec<&Vec<u8>> = mes.iter().filter(|m| m[0] >> 3 == 31).collect();
+    let step = if thorough { 1 } else { std::cmp::max(1, me65.len() / 150) };
+    for me in me65.iter().step_by(step) {
+        for df in [20u8, 21] {
+            let mut f = frame(rng, df, None);
+            f[4..11].copy_from_slice(me);
+            dec(out, &f);
+        }
+    }
+    // BDS 0,5 (type codes 9..18, 20..22) is a hypothesis of the DF20 selector only, and is kept only when its
+    // 12-bit altitude code decodes to the altitude of the reply's own 13-bit AC field: AC made equal (the 12-bit
+    // code with the M bit inserted), one step away, and unrelated; 25 ft and Gillham codes, altitude 0 included
+    for tc in [9u8, 10, 11, 12, 13, 14, 15, 16, 17, 18, 20, 21, 22, 8, 19, 23] {
+        for variant in 0..(6 * k) {
+            for df in [20u8, 21] {
+                let mut f = frame(rng, df, None);
+                put_bits(&mut f, 32, 5, tc as u64);
+                let ac12 = match variant % 6 {
+                    0 => rng.below(1 << 12) | 0x10,  // Q = 1
+                    1 => rng.below(1 << 12) & !0x10, // Gillham
+                    2 => {
+                        // 25 ft grid around 0 ft (N = 40 is 0 ft)
+                        let n = 38 + rng.below(5);
+                        ((n & 0x7f0) << 1) | 0x10 | (n & 0xf)
+                    }
+                    3 => 0,
+                    _ => rng.below(1 << 12),
+                };
+                put_bits(&mut f, 40, 12, ac12);
+                let ac13 = ((ac12 >> 6) << 7) | (ac12 & 0x3f);
+                let ac13 = match variant % 6 {
+                    4 => ac13 ^ (1 << rng.below(13)), // one bit away (M bit included)
+                    5 => rng.below(1 << 13),
+                    _ => ac13,
+                };
+                put_bits(&mut f, 19, 13, ac13);
+                dec(out, &f);
+            }
         }
     }
     let mut mbs = crate::gen_commb_a::payloads(rng, thorough);
